@@ -49,6 +49,13 @@ func corpus() []witness {
 		{"divide-int-by-zero-count", F("divide", I(7), F("count", F("collection"))), "-"},
 		{"zero-collection", F("accessible-routes", FID(pb.FeatureType_FeatureTypeInvalid, "openstreetmap.org/node", 343), QL(QAll()), Fl(-1), Coll([]*Node{Str("maxspeed")}, []*Node{I(1)})), "-"},
 		{"zero-collection-count", F("count", F("accessible-routes", osmNode(999), QL(QAll()), Fl(100), Coll(nil, nil))), "-"},
+		{"nil-value-lambda-argument", F("call", L([]string{"va"}, S("va")), F("find-relation", FID(pb.FeatureType_FeatureTypeRelation, "openstreetmap.org/relation", 999))), "-"},
+		{"nil-value-literal-argument", C(L([]string{"a"}, S("a")), Nil()), "-"},
+		{"nil-value-literal-to-function", F("first", F("pair", Nil(), I(1))), "-"},
+		{"nil-value-in-collection-map", F("map", Coll([]*Node{I(0)}, []*Node{Nil()}), L([]string{"x"}, S("x"))), "-"},
+		{"nil-value-in-collection-filter", F("count", F("filter", Coll([]*Node{I(0), I(1)}, []*Node{Nil(), I(2)}), L([]string{"x"}, F("gt", S("x"), I(1))))), "-"},
+		{"nil-value-in-collection-map-items", F("map-items", Coll([]*Node{I(0)}, []*Node{Nil()}), S("first")), "-"},
+		{"nil-value-in-collection-map-parallel", F("map-parallel", Coll([]*Node{I(0)}, []*Node{Nil()}), L([]string{"x"}, S("x"))), "-"},
 		// ---- guards that exist; kept as witnesses for mutations of them
 		{"collection-literal-fewer-values", F("count", Coll([]*Node{I(0), I(1)}, []*Node{I(5)})), "-"},
 		{"collection-literal-fewer-keys", F("count", Coll([]*Node{I(0)}, []*Node{I(5), I(6)})), "-"},
@@ -66,6 +73,7 @@ func corpus() []witness {
 		{"finding-geometry-kind-to-geojson", F("to-geojson", Area([][][]pt{{}})), "-"},
 		{"finding-nil-feature-tile-ids", F("tile-ids", F("find-collection", FID(pb.FeatureType_FeatureTypeCollection, "diagonal.works/ns/c23", 2))), "-"},
 		{"finding-nil-feature-degree", F("degree", F("find-feature", osmNode(999))), "-"},
+		{"finding-nil-feature-options", F("accessible-routes", FID(pb.FeatureType_FeatureTypePoint, "openstreetmap.org/node", 111), QL(QAll()), Fl(260), F("find-collection", FID(pb.FeatureType_FeatureTypeCollection, "diagonal.works/ns/c23", 2))), "-"},
 		{"finding-unliterable-item", F("count-keys", F("map-items", Coll([]*Node{I(4)}, []*Node{QL(QKeyed("name"))}), L([]string{"va"}, F("pair", I(1), S("va"))))), "-"},
 		{"finding-typed-query-type", F("find", QL(QTyped(pb.FeatureType_FeatureTypeExpression, QKeyed("point")))), "-"},
 		{"finding-closure-registers", C(C(C(L([]string{"a", "b"}, L([]string{"c"}, F("add-ints", S("a"), S("c")))), I(1)), I(2)), I(3)), "-"},
